@@ -386,6 +386,13 @@ class ReplayDivergence(RuntimeError):
     pass
 
 
+def obs_key(res):
+    """Comparable form of one observation; of an exception only the type (messages may contain object addresses)."""
+    if isinstance(res, tuple) and len(res) == 2 and res[0] == "exc":
+        return ("exc", str(res[1]).split(":")[0])
+    return repr(res)
+
+
 def run_history(mk, fire, hist):
     """Fresh network, then the events of `hist` in order; returns (graph, last result)."""
     g = mk()
@@ -423,7 +430,7 @@ def history_bfs(ctx, gid, mk, events, fire, judge, max_depth, hasher=hash):
                     # the same history from scratch on a freshly built network: validates the in-place restore
                     g2, res2 = run_history(mk, fire, hist + (ev,))
                     ctx.trace()
-                    if g2.canon() != k2 or repr(res2) != repr(res):
+                    if g2.canon() != k2 or obs_key(res2) != obs_key(res):
                         raise ReplayDivergence("history %r on %r does not replay to the state/observation reached "
                                                "in place" % (hist + (ev,), gid))
                 if k2 in seen:
